@@ -511,15 +511,18 @@ Section Proofs.
   Qed.
 
   (* ---------- construction *)
-  Theorem construct_WF_InB c a s : construct O c a = Ok s -> WF s /\ InB c s.
+  Lemma checked_self c s : InB c s -> checked O c s = Ok s.
+  Proof. unfold InB, checked. now intros ->. Qed.
+
+  Lemma build_WF c a s : build O c a = Ok s -> WF s.
   Proof.
-    unfold construct. set (d := eff_dim a).
+    unfold build. set (d := eff_dim a).
     destruct (d <? 1) eqn:E1; [discriminate|]. apply Nat.ltb_ge in E1.
     destruct (negb (length (a_opts a) =? length (a_bopts a))) eqn:E2; [discriminate|].
     apply negb_false_iff, Nat.eqb_eq in E2.
     unfold bind. destruct (set_len_anis O d (a_len a) (a_anis a) (a_latlon a)) as [[l an]|] eqn:E; [|discriminate].
     pose proof (set_len_anis_ok _ _ _ _ _ _ E1 E) as (A1 & A2 & A3 & A4).
-    simpl fst; simpl snd. intros H. apply checked_ok in H as [-> HB]. split; auto.
+    simpl fst; simpl snd. intros H. inversion H; subst s; clear H.
     assert (Dll : a_latlon a = true -> d = 3 + b2n (a_temporal a)).
     { intros L. subst d. unfold eff_dim. now rewrite L. }
     assert (G : forall v, WF (mkState d (a_latlon a) (a_temporal a) v l an
@@ -536,12 +539,16 @@ Section Proofs.
     destruct (a_var_is_raw a); [apply G|]. unfold with_var_raw; simpl. apply G.
   Qed.
 
-  (* the canonical form: a well-formed state with every value inside its bounds IS the state
-     that the constructor builds from the state's own values *)
-  Theorem canonical c s : WF s -> InB c s -> construct O c (args_of s) = Ok s.
+  Theorem construct_WF_InB c a s : construct O c a = Ok s -> WF s /\ InB c s.
   Proof.
-    intros (W1 & W2 & W3 & W4 & W5 & W6 & W7 & W8) B.
-    unfold construct.
+    unfold construct, bind. destruct (build O c a) as [s0|] eqn:E; [|discriminate].
+    intros H. apply checked_ok in H as [-> HB]. split; auto. eapply build_WF; eauto.
+  Qed.
+
+  Lemma build_args_of c s : WF s -> build O c (args_of s) = Ok s.
+  Proof.
+    intros (W1 & W2 & W3 & W4 & W5 & W6 & W7 & W8).
+    unfold build.
     assert (ED : eff_dim (args_of s) = dim s).
     { unfold eff_dim; simpl. destruct (latlon s) eqn:L; auto. now destruct (W5 eq_refl) as (-> & _). }
     rewrite ED. destruct (dim s <? 1) eqn:E1; [apply Nat.ltb_lt in E1; lia|].
@@ -553,7 +560,45 @@ Section Proofs.
     simpl a_angles; simpl a_temporal; simpl a_rescale.
     rewrite set_model_angles_id; auto.
     2:{ intros L. now destruct (W5 L) as (_ & _ & ?). }
-    rewrite W8. destruct s; simpl in *. unfold checked. unfold InB in B. simpl in B. now rewrite B.
+    rewrite W8. destruct s; reflexivity.
+  Qed.
+
+  (* the canonical form: a well-formed state with every value inside its bounds IS the state
+     that the constructor builds from the state's own values *)
+  Theorem canonical c s : WF s -> InB c s -> construct O c (args_of s) = Ok s.
+  Proof.
+    intros W B. unfold construct. rewrite build_args_of by exact W. simpl. now apply checked_self.
+  Qed.
+
+  (* ---------- the constructor with integral_scale= is the constructor followed by the two
+     assignments it performs (integral_scale, then var again), and its result is canonical *)
+  Theorem construct_int_is_history c a ls :
+    construct_int O c a ls =
+    if a_var_is_raw a then s0 <- build O c a ;; run O c s0 [SetIntScale ls]
+    else s0 <- construct O c a ;; run O c s0 [SetIntScale ls; SetVar (a_var a)].
+  Proof.
+    unfold construct_int, construct, bind. simpl.
+    destruct (build O c a) as [s0|]; [|destruct (a_var_is_raw a); reflexivity].
+    destruct (a_var_is_raw a).
+    - unfold bind. destruct (set_int_scale O c s0 ls); reflexivity.
+    - destruct (checked O c s0) as [s0'|]; [|reflexivity]. unfold bind.
+      destruct (set_int_scale O c s0' ls) as [s1|]; [|reflexivity].
+      destruct (set_var O c s1 (a_var a)); reflexivity.
+  Qed.
+
+  Theorem construct_int_canonical c a ls s :
+    construct_int O c a ls = Ok s -> WF s /\ InB c s /\ construct O c (args_of s) = Ok s.
+  Proof.
+    unfold construct_int, bind. destruct (build O c a) as [s0|] eqn:E; [|discriminate].
+    pose proof (build_WF _ _ _ E) as W0.
+    assert (G : forall s, WF s -> InB c s -> WF s /\ InB c s /\ construct O c (args_of s) = Ok s).
+    { intros s' W' B'. split; [exact W'|]. split; [exact B'|]. now apply canonical. }
+    destruct (a_var_is_raw a).
+    - intros H. destruct (set_int_scale_spec _ _ _ _ W0 H) as (? & ? & _ & _ & W & B). auto.
+    - destruct (checked O c s0) as [s0'|] eqn:E0; [|discriminate]. apply checked_ok in E0 as [-> _].
+      destruct (set_int_scale O c s0 ls) as [s1|] eqn:E1; [|discriminate].
+      destruct (set_int_scale_spec _ _ _ _ W0 E1) as (? & ? & _ & _ & W1 & _).
+      unfold set_var. intros H. apply checked_ok in H as [-> B]. apply G; [now apply WF_with_var_raw|exact B].
   Qed.
 
   Theorem reachable_canonical c a ops s0 s :
@@ -638,7 +683,7 @@ Section Proofs.
 
   Lemma ctor_default_bounded c a s : ctor O c a = Ok s -> default_bounded c s.
   Proof.
-    unfold ctor, construct.
+    unfold ctor, construct, build.
     destruct (eff_dim (with_default_bounds O c a) <? 1); [discriminate|].
     destruct (negb _); [discriminate|]. unfold bind.
     destruct (set_len_anis O _ _ _ _) as [[l an]|]; [|discriminate].
@@ -792,9 +837,6 @@ Section Proofs.
      normalisations are idempotent on reachable states) *)
   Lemma aupd_nth_same {A} (l : list A) i d : aupd l i (nth i l d) = l.
   Proof. revert i; induction l as [|h t IH]; intros [|i]; simpl; auto. now rewrite IH. Qed.
-
-  Lemma checked_self c s : InB c s -> checked O c s = Ok s.
-  Proof. unfold InB, checked. now intros ->. Qed.
 
   Theorem self_assignment_identity c s : WF s -> InB c s ->
     step O c s (SetVarRaw (var_raw s)) = Ok s /\ step O c s (SetNugget (nugget s)) = Ok s /\
